@@ -1339,6 +1339,11 @@ func (client *client) disconnectHandler(dis *packets.Disconnect) *codes.Error {
 				Code: codes.ProtocolError,
 			}
 		}
+		if max := uint32(client.config.MQTT.SessionExpiry.Seconds()); disExpiry > max {
+			// like the interval of CONNECT, the one a DISCONNECT brings is limited to the configured maximum
+			disExpiry = max
+			dis.Properties.SessionExpiryInterval = &disExpiry
+		}
 		if disExpiry != 0 {
 			err := client.server.sessionStore.SetSessionExpiry(sess.ClientID, disExpiry)
 			if err != nil {
